@@ -202,3 +202,16 @@ impl SwarmDriver {
         }
     }
 }
+
+/// Verification hook (feature `verif-hooks`): the receiving side of a `Cmd::Replicate` request.
+#[cfg(feature = "verif-hooks")]
+#[allow(missing_docs)]
+impl SwarmDriver {
+    pub fn verif_handle_replicate(
+        &mut self,
+        holder: NetworkAddress,
+        keys: Vec<(NetworkAddress, RecordType)>,
+    ) {
+        self.add_keys_to_replication_fetcher(holder, keys)
+    }
+}
